@@ -1,6 +1,7 @@
 package harness
 
 import (
+	"encoding/json"
 	"fmt"
 	"testing"
 
@@ -98,6 +99,7 @@ func execC03(c C03Case) *Failure {
 	}
 	defer conn.Close()
 	staleID := ""
+	lateLenient := false
 	for _, st := range c.Steps {
 		if st.Sess == "stale" && c.Mode.Stateful() {
 			if staleID == "" {
@@ -135,6 +137,13 @@ func execC03(c C03Case) *Failure {
 		}
 		bound := Bound()
 		ex := conn.Send([]byte(st.Raw), expectID, bound)
+		if lateLenient {
+			// on a shared stream the answer to an earlier message with a retyped id (any answer is allowed there) may arrive only now
+			ex.Frames = dropRetypedIDFrames(ex.Frames, st.ID)
+		}
+		if exp.Anything && st.Path == "/id" && (c.Mode == ModeStdio || c.Mode == ModeLegacy) {
+			lateLenient = true
+		}
 		if f := classifyC03(c.Mode, c.Reg, st, JudgeC03(c.Mode, c.Reg, st, ex)); f != nil {
 			return f
 		}
@@ -194,4 +203,21 @@ func latticeCases() []C03Case {
 
 func TestC03Lattice(t *testing.T) {
 	RunEnum(t, "C03", latticeCases(), execC03, ntC03)
+}
+
+// dropRetypedIDFrames removes frames whose id is neither a string nor an integer (and is not the current message's id).
+func dropRetypedIDFrames(frames [][]byte, curID string) [][]byte {
+	var out [][]byte
+	for _, raw := range frames {
+		var m struct {
+			ID json.RawMessage `json:"id"`
+		}
+		if json.Unmarshal(raw, &m) == nil && len(m.ID) > 0 && string(m.ID) != curID {
+			if c := m.ID[0]; c != '"' && c != '-' && (c < '0' || c > '9') {
+				continue
+			}
+		}
+		out = append(out, raw)
+	}
+	return out
 }
